@@ -126,7 +126,7 @@ def generate(textx):
                     arg_name = m[2:]
                     if not arguments or arguments[0].startswith("--"):
                         # Boolean argument
-                        custom_args[arg_name] = True
+                        custom_args[arg_name.replace("-", "_")] = True
                     else:
                         custom_args[arg_name.replace("-", "_")] = arguments.pop(0).strip(
                             "\"'"
